@@ -17,3 +17,4 @@ CONSTANTS
   BIGSET = FALSE
   SAMPLE = 23
   STREAMLEN = 0
+  TWOCOLOURS = FALSE
